@@ -5,9 +5,31 @@ import LimnoriaModel.C10.Burst1
 namespace C10
 open Py
 
-theorem sigils_mp {cfg : Cfg} (h : cfg.multiPrefix = true) (f : Flags) :
-    sigils cfg f = (if f.o then ['@'] else []) ++ (if f.h then ['%'] else []) ++ (if f.v then ['+'] else []) := by
-  simp [sigils, h]
+/-- the sigils of a member with all of its statuses -/
+def fullSigils (f : Flags) : Str :=
+  (if f.o then ['@'] else []) ++ (if f.h then ['%'] else []) ++ (if f.v then ['+'] else [])
+
+/-- the statuses a NAMES / WHO reply shows: all of them with multi-prefix, otherwise only the highest -/
+def shown (cfg : Cfg) (f : Flags) : Flags :=
+  if cfg.multiPrefix then f else { o := f.o, h := !f.o && f.h, v := !f.o && !f.h && f.v }
+
+theorem sigils_shown (cfg : Cfg) (f : Flags) : sigils cfg f = fullSigils (shown cfg f) := by
+  obtain ⟨o, h, v⟩ := f
+  unfold sigils shown fullSigils
+  cases cfg.multiPrefix <;> cases o <;> cases h <;> cases v <;> rfl
+
+theorem shown_o (cfg : Cfg) (f : Flags) : (shown cfg f).o = f.o := by
+  unfold shown; split <;> rfl
+theorem shown_h (cfg : Cfg) (f : Flags) (h : (shown cfg f).h = true) : f.h = true := by
+  unfold shown at h; split at h
+  · exact h
+  · simp at h; exact h.2
+theorem shown_v (cfg : Cfg) (f : Flags) (h : (shown cfg f).v = true) : f.v = true := by
+  unfold shown at h; split at h
+  · exact h
+  · simp at h; exact h.2
+theorem shown_mp {cfg : Cfg} (h : cfg.multiPrefix = true) (f : Flags) : shown cfg f = f := by
+  simp [shown, h]
 
 theorem dec_strip_at : decide ('@' ∈ Gen.sigilsStrip) = true := by decide
 theorem dec_strip_pc : decide ('%' ∈ Gen.sigilsStrip) = true := by decide
@@ -33,18 +55,21 @@ theorem marker_pl (n : Str) (c : Chan) : Chan.addMarker n c '+' = { c with voice
   simp [Chan.addMarker, h1, h2, h3]
 
 /-- `addUser` of a NAMES item `sigils ++ nick` -/
-theorem addUser_item {cfg : Cfg} (hmp : cfg.multiPrefix = true) {n : Str} (hn : NickOK n) (f : Flags) (c : Chan) :
-    c.addUser (sigils cfg f ++ n) = addMember c (lower n, f) := by
+theorem addUser_full {n : Str} (hn : NickOK n) (f : Flags) (c : Chan) :
+    c.addUser (fullSigils f ++ n) = addMember c (lower n, f) := by
   cases n with
   | nil => exact absurd rfl hn.ne
   | cons a t =>
     have h1 : decide (a ∈ Gen.sigilsStrip) = false := by simpa using (nick_noSigil hn).1 a (by simp)
     have h2 : decide (a ∈ Gen.sigilsLoop) = false := by simpa using (nick_noSigil hn).2.1 a (by simp)
-    rw [sigils_mp hmp]
     obtain ⟨o, h, v⟩ := f
     cases o <;> cases h <;> cases v <;>
-      simp [Chan.addUser, lstripP, List.dropWhile_cons, List.takeWhile_cons, h1, h2, dec_strip_at, dec_strip_pc,
+      simp [fullSigils, Chan.addUser, lstripP, List.dropWhile_cons, List.takeWhile_cons, h1, h2, dec_strip_at, dec_strip_pc,
         dec_strip_pl, dec_loop_at, dec_loop_pc, dec_loop_pl, marker_at, marker_pc, marker_pl, addMember]
+
+theorem addUser_item (cfg : Cfg) {n : Str} (hn : NickOK n) (f : Flags) (c : Chan) :
+    c.addUser (sigils cfg f ++ n) = addMember c (lower n, shown cfg f) := by
+  rw [sigils_shown]; exact addUser_full hn _ c
 
 theorem sigils_noBang {cfg : Cfg} (f : Flags) : '!' ∉ sigils cfg f := by
   obtain ⟨o, h, v⟩ := f
@@ -56,16 +81,19 @@ theorem sigils_nosp {cfg : Cfg} (f : Flags) : NoSp (sigils cfg f) := by
   unfold sigils NoSp
   cases o <;> cases h <;> cases v <;> cases cfg.multiPrefix <;> decide
 
-theorem lstrip353_item {cfg : Cfg} (hmp : cfg.multiPrefix = true) (f : Flags) {w : Str} (hw : ∀ a t, w = a :: t → a ∉ Gen.sigils353)
-    (hne : w ≠ []) : lstripP (· ∈ Gen.sigils353) (sigils cfg f ++ w) = w := by
+theorem lstrip353_full (f : Flags) {w : Str} (hw : ∀ a t, w = a :: t → a ∉ Gen.sigils353)
+    (hne : w ≠ []) : lstripP (· ∈ Gen.sigils353) (fullSigils f ++ w) = w := by
   cases w with
   | nil => exact absurd rfl hne
   | cons a t =>
     have h1 : decide (a ∈ Gen.sigils353) = false := by simpa using hw a t rfl
-    rw [sigils_mp hmp]
     obtain ⟨o, h, v⟩ := f
     cases o <;> cases h <;> cases v <;>
-      simp [lstripP, List.dropWhile_cons, h1, dec_353_at, dec_353_pc, dec_353_pl]
+      simp [fullSigils, lstripP, List.dropWhile_cons, h1, dec_353_at, dec_353_pc, dec_353_pl]
+
+theorem lstrip353_item (cfg : Cfg) (f : Flags) {w : Str} (hw : ∀ a t, w = a :: t → a ∉ Gen.sigils353)
+    (hne : w ≠ []) : lstripP (· ∈ Gen.sigils353) (sigils cfg f ++ w) = w := by
+  rw [sigils_shown]; exact lstrip353_full _ hw hne
 
 /-- the name `do353` extracts from an item, with or without userhost-in-names -/
 theorem item353Name_item (s : Srv) {u : SUser} (hu : UserOK u) (f : Flags) :
@@ -136,19 +164,22 @@ theorem namesItem_ne_nosp {s : Srv} {ps : List (Str × Flags)} (h : MembersOK s 
       · exact nosp_mask huo.nick.nosp huo.ident.nosp huo.host.nosp c hc
       · exact huo.nick.nosp c hc
 
+/-- the members as a NAMES reply shows them -/
+def shownMembers (s : Srv) (ps : List (Str × Flags)) : List (Str × Flags) := ps.map (fun p => (p.1, shown s.cfg p.2))
+
 /-- the channel part of one 353 line -/
-theorem foldl_addUser_items {s : Srv} (hmp : s.cfg.multiPrefix = true) {ps : List (Str × Flags)} (h : MembersOK s ps) (c : Chan) :
-    (ps.map s.namesItem).foldl (fun c item => c.addUser (item353Name item)) c = ps.foldl addMember c := by
+theorem foldl_addUser_items {s : Srv} {ps : List (Str × Flags)} (h : MembersOK s ps) (c : Chan) :
+    (ps.map s.namesItem).foldl (fun c item => c.addUser (item353Name item)) c = (shownMembers s ps).foldl addMember c := by
   induction ps generalizing c with
   | nil => rfl
   | cons p ps ih =>
     obtain ⟨u, hu, huo, hk⟩ := h.user p (by simp)
-    simp only [List.map_cons, List.foldl_cons]
-    rw [namesItem_eq hu, item353Name_item s huo, addUser_item hmp huo.nick, hk]
+    simp only [shownMembers, List.map_cons, List.foldl_cons]
+    rw [namesItem_eq hu, item353Name_item s huo, addUser_item s.cfg huo.nick, hk]
     exact ih (h.sub (fun q hq => by simp [hq])) _
 
 /-- the hostmask part of one 353 line: entries are left alone or set to the right value -/
-theorem foldl_n2h353_items {s : Srv} (hmp : s.cfg.multiPrefix = true) {ps : List (Str × Flags)} (h : MembersOK s ps)
+theorem foldl_n2h353_items {s : Srv} {ps : List (Str × Flags)} (h : MembersOK s ps)
     (n2h : List (Str × Str)) (x : Str) :
     aget ((ps.map s.namesItem).foldl n2h353 n2h) x = aget n2h x ∨
       ∃ u, aget s.users x = some u ∧ aget ((ps.map s.namesItem).foldl n2h353 n2h) x = some u.mask := by
@@ -183,9 +214,9 @@ theorem foldl_n2h353_items {s : Srv} (hmp : s.cfg.multiPrefix = true) {ps : List
         rw [hisu, hname]
         simp only [↓reduceIte]
         have hn1 : lstripP (· ∈ Gen.sigils353) (sigils s.cfg p.2 ++ u.nick) = u.nick :=
-          lstrip353_item hmp p.2 (fun a t e => (nick_noSigil huo.nick).2.2 a (by rw [e]; simp)) huo.nick.ne
+          lstrip353_item s.cfg p.2 (fun a t e => (nick_noSigil huo.nick).2.2 a (by rw [e]; simp)) huo.nick.ne
         have hn2 : lstripP (· ∈ Gen.sigils353) (sigils s.cfg p.2 ++ u.mask) = u.mask := by
-          apply lstrip353_item hmp p.2
+          apply lstrip353_item s.cfg p.2
           · intro a t e
             have : u.mask = u.nick ++ ('!' :: u.ident ++ '@' :: u.host) := by simp [SUser.mask]
             rw [this] at e
@@ -213,5 +244,66 @@ theorem foldl_n2h353_items {s : Srv} (hmp : s.cfg.multiPrefix = true) {ps : List
           right; exact ⟨u, hu, rfl⟩
         · simp [hx]
     · exact Or.inr ⟨u', hu', e⟩
+
+/-- with userhost-in-names one item records the member's hostmask -/
+theorem n2h353_item_uh {s : Srv} (huh : s.cfg.uhnames = true) {p : Str × Flags} {u : SUser}
+    (hu : aget s.users p.1 = some u) (huo : UserOK u) (hk : lower u.nick = p.1) (n2h : List (Str × Str)) :
+    n2h353 n2h (s.namesItem p) = aset n2h p.1 u.mask := by
+  rw [namesItem_eq hu]
+  unfold n2h353
+  have e : sigils s.cfg p.2 ++ u.mask = mkHostmask (sigils s.cfg p.2 ++ u.nick) u.ident u.host := by
+    simp [SUser.mask, mkHostmask]
+  have hisu : isUserHostmask (sigils s.cfg p.2 ++ u.mask) = true := by
+    rw [e]
+    apply isUserHostmask_mask
+    · intro h; exact huo.nick.ne (List.append_eq_nil_iff.mp h).2
+    · simp only [List.mem_append, not_or]; exact ⟨sigils_noBang _, huo.nick.noBang⟩
+    · exact huo.ident.ne
+    · exact huo.host.ne
+    · intro c hc; simp only [List.mem_append] at hc
+      rcases hc with hc | hc
+      · exact sigils_nosp _ c hc
+      · exact huo.nick.nosp c hc
+    · exact huo.ident.nosp
+    · exact huo.host.nosp
+  have hname := item353Name_item s huo p.2
+  simp only [huh, ↓reduceIte] at hname ⊢
+  rw [hisu, hname]
+  simp only [↓reduceIte]
+  have hn1 : lstripP (· ∈ Gen.sigils353) (sigils s.cfg p.2 ++ u.nick) = u.nick :=
+    lstrip353_item s.cfg p.2 (fun a t e => (nick_noSigil huo.nick).2.2 a (by rw [e]; simp)) huo.nick.ne
+  have hn2 : lstripP (· ∈ Gen.sigils353) (sigils s.cfg p.2 ++ u.mask) = u.mask := by
+    apply lstrip353_item s.cfg p.2
+    · intro a t e
+      have : u.mask = u.nick ++ ('!' :: u.ident ++ '@' :: u.host) := by simp [SUser.mask]
+      rw [this] at e
+      cases hn : u.nick with
+      | nil => exact absurd hn huo.nick.ne
+      | cons a' t' =>
+        rw [hn] at e
+        simp only [List.cons_append, List.cons.injEq] at e
+        rw [← e.1]
+        exact (nick_noSigil huo.nick).2.2 a' (by rw [hn]; simp)
+    · simp [SUser.mask]
+  rw [hn1, hn2, hk]
+
+/-- with userhost-in-names a 353 line leaves every listed member's hostmask recorded -/
+theorem foldl_n2h353_sets {s : Srv} (huh : s.cfg.uhnames = true) {ps : List (Str × Flags)} (h : MembersOK s ps)
+    (n2h : List (Str × Str)) :
+    ∀ p ∈ ps, ∃ u, aget s.users p.1 = some u ∧ aget ((ps.map s.namesItem).foldl n2h353 n2h) p.1 = some u.mask := by
+  induction ps generalizing n2h with
+  | nil => intro p hp; cases hp
+  | cons p0 ps ih =>
+    intro p hp
+    obtain ⟨u0, hu0, huo0, hk0⟩ := h.user p0 (by simp)
+    have hrest := h.sub (qs := ps) (fun q hq => by simp [hq])
+    simp only [List.map_cons, List.foldl_cons]
+    rw [n2h353_item_uh huh hu0 huo0 hk0]
+    rcases List.mem_cons.mp hp with rfl | hp'
+    · refine ⟨u0, hu0, ?_⟩
+      rcases foldl_n2h353_items hrest (aset n2h p.1 u0.mask) p.1 with e | ⟨u', hu', e⟩
+      · rw [e, aget_aset_self]
+      · rw [hu0] at hu'; cases hu'; exact e
+    · exact ih hrest _ p hp'
 
 end C10
